@@ -50,9 +50,8 @@ def gen_items(rng, targets, depth=0, allow_ref=True, in_arg=False):
         elif r < 0.55:
             items.append(("V", rng.choice(VARS)))
         elif r < 0.7 and depth < 2:
-            # no reference inside a component: `<b>$t(k)</b>` is split at the `$t(` before the tags are looked at
-            # (known finding C01-foreign-key-inside-component), so it is kept out of this generator
-            items.append(("C", rng.choice(COMPS), gen_items(rng, targets, depth + 1, False, in_arg)))
+            # references inside components: `<b>$t(k)</b>` (defect C06-foreign-key-inside-component, repaired)
+            items.append(("C", rng.choice(COMPS), gen_items(rng, targets, depth + 1, allow_ref, in_arg)))
         elif allow_ref and targets and depth < 2:
             ns, path = rng.choice(targets)
             args = []
